@@ -26,6 +26,7 @@ RULE = (
 )
 RULE += '; check_cancellation is also asked inside the handler of a delivered CancelledError; disposables may spawn a task while entering'
 RULE += "; check scripts may spawn a task that fails at once (spawn_fail); a task of the victim's scopes must have ended when the victim has ended (event log)"
+RULE += '; scripts may leave a scope while a cancel from outside arrives during the wait (leave_cancelled); prepared scopes in programs'
 LEVEL_TEXT = (
     "Exhaustive single-fault injection: asyncio delivers a cancel to any task that is not done, and the generated "
     "programs never catch it, so 'not done at injection => task ends cancelled and every task it spawned in its scopes "
@@ -271,6 +272,16 @@ def run_check(case) -> Outcome:
                                 # delivered inside the exit, where the failed task's error wins (KF1)
                                 internal["tainted"] = internal["tainted"] or not internal["suspended"] or undelivered_at_leave
                                 internal["level"] = None
+                    elif step == "leave_cancelled" and stack and internal["level"] is None:
+                        # the scope is left (clean body) while a task spawned into it is still running, and a cancellation
+                        # from outside arrives during that wait - whatever requests the task has absorbed before
+                        ctx.spawn(asyncio.sleep, 1)
+                        loop.call_soon(me.cancel)
+                        pending += 1
+                        seen_request["v"] = True
+                        await stack.pop().__aexit__(None, None, None)
+                        # reaching this line means the exit swallowed the request
+                        obs.append(("undelivered", True, False, me.cancelling()))
                     elif step == "leave_err" and stack:
                         # the block is left with an ordinary exception of its body (handled by the code around it): this
                         # neither makes nor takes back a cancellation request
@@ -367,7 +378,7 @@ def run_case(case) -> Outcome:
 
 def strategy(tier):
     progs = conc.program(disp_faults=True, body_raises=True).map(lambda p: {"kind": "prog", **p, "inject": None})
-    steps = st.sampled_from(["ctx_cancel", "ctx_cancel", "ext_cancel", "uncancel", "check", "check", "yield", "yield", "other", "enter", "leave", "leave_err", "spawn_fail"])
+    steps = st.sampled_from(["ctx_cancel", "ctx_cancel", "ext_cancel", "uncancel", "check", "check", "yield", "yield", "other", "enter", "leave", "leave_err", "spawn_fail", "leave_cancelled"])
     checks = st.builds(lambda s: {"kind": "check", "script": s}, st.lists(steps, min_size=1, max_size=10))
     return st.one_of(progs, progs, checks)
 
@@ -385,6 +396,11 @@ def enumerate_cases(tier):
         for script in itertools.product(STEPS, repeat=length):
             if "check" in script or "yield" in script:
                 yield {"kind": "check", "script": list(script)}
+    # a cancellation arriving while the exit waits for a spawned task, after 0..2 requests that were caught earlier
+    for pre in ([], ["ext_cancel", "yield"], ["ctx_cancel", "yield"], ["ext_cancel", "yield", "ctx_cancel", "yield"], ["ctx_cancel", "uncancel", "yield"]):
+        for tail in (["check"], ["yield", "check"], ["enter", "leave", "check"]):
+            yield {"kind": "check", "script": [*pre, "enter", "leave_cancelled", *tail]}
+            yield {"kind": "check", "script": ["enter", *pre, "leave_cancelled", *tail]}
     # a failing spawned task while the body is suspended, the scope left, then checks / further requests
     for tail in itertools.product(["check", "ctx_cancel", "yield", "enter", "leave"], repeat=2):
         for leave in ("leave", "leave_err"):
